@@ -9,6 +9,7 @@ import (
 // (the selector is reduced modulo it).
 var (
 	tgtParseString = &textTarget{name: "parsestring", nsel: len(psTypes), run: runParseString, seeds: seedsParseString, alphabet: alphaCollections,
+		structured: psStructured, hotSels: psUnsupported,
 		selNames: func(s int) string { return psTypes[s%len(psTypes)].name }}
 	tgtSplitters = &textTarget{name: "splitters", nsel: len(splitterNames), run: runSplitters, seeds: seedsSplitters, alphabet: alphaCollections,
 		selNames: func(s int) string { return splitterNames[s%len(splitterNames)] }}
